@@ -15,6 +15,7 @@ import TerwayModel.Driver.PodEni
 import TerwayModel.Driver.StoredRec
 import TerwayModel.Driver.Agent
 import TerwayModel.Driver.Factory
+import TerwayModel.Driver.Remote
 /-
 `drv`: reads one operation per line (`<model>.<op> arg…`), prints one canonical line per input.
 Malformed or unknown lines print `bad-op` — never a default value.
@@ -40,6 +41,7 @@ def dispatch (st : St) (line : String) : St × String :=
     | ["bw", op] => (st, (Bandwidth.step op args).getD "bad-op")
     | ["fa", op] => (st, (FactoryD.step op args).getD "bad-op")
     | ["sr", op] => (st, (StoredRecD.step op args).getD "bad-op")
+    | ["rm", op] => (st, (RemoteD.step op args).getD "bad-op")
     | ["cap", op] => (st, (Capacity.step op args).getD "bad-op")
     | ["fib", op] =>
       match DatapathD.fibStep st.fib op args with
